@@ -363,3 +363,12 @@ def run(ctx):
              '(rules C14.1 / C14.2 re-run here)', floor=5)
     from . import c14
     c14.header_rules(SubCtx(ctx, 'C07.3-dist-header-frame', 'header'))
+    # (c) the control tuple and the payload are written by erltf's term encoder: what it writes with a narrow width is guarded there
+    ctx.rule('C07.2-term-encoder-sizes', 'control tuple and payload are serialised by the term encoder: every length / arity / count it writes with a narrower width is range-guarded or converted with try_from '
+             '(rule C01.3 re-run here): otherwise an operation with an unusual argument (a long non-ASCII registered name ...) emits a malformed control tuple', floor=8)
+    from .c01 import REVIEWED_CAST, reviewed_premises
+    from ..etf import ENC as _ENC
+    from ..families import check_casts as _cc
+    for fn_ in sorted(q for q in ctx.F.bodies if q.startswith(_ENC) and ctx.F.bodies[q]['kind'] in ('Fn', 'Closure')):
+        _cc(ctx, P.B(fn_), 'C07.2-term-encoder-sizes', include_float=False, reviewed=REVIEWED_CAST)
+    reviewed_premises(ctx, 'C07.2-term-encoder-sizes')
